@@ -118,7 +118,8 @@ func (b *Batch) Get(key []byte) ([]byte, error) {
 		if logRecord.Type == datafile.LogRecordDeleted {
 			return nil, ErrKeyNotFound
 		}
-		return logRecord.Value, nil
+		// 返回副本, 暂存记录提交后会归还缓冲池被复用
+		return append([]byte(nil), logRecord.Value...), nil
 	}
 
 	// 记录未缓存则执行查询
@@ -126,7 +127,15 @@ func (b *Batch) Get(key []byte) ([]byte, error) {
 	if pos == nil {
 		return nil, ErrKeyNotFound
 	}
-	value, err := b.db.activeFile.ReadRecordValue(pos)
+	// 批处理期间已持有 DB 写锁, 直接根据位置信息中的文件 id 定位数据文件
+	dataFile := b.db.activeFile
+	if dataFile.ID != pos.Fid {
+		dataFile = b.db.olderFiles[pos.Fid]
+	}
+	if dataFile == nil {
+		return nil, ErrDataFileNotFound
+	}
+	value, err := dataFile.ReadRecordValue(pos)
 	if err != nil {
 		return nil, err
 	}
